@@ -14,6 +14,9 @@ mod private {
     pub trait Sealed {}
 }
 
+/// `read_bytes` never allocates more than this many bytes beyond what it has already received
+const READ_BYTES_CHUNK: usize = 64 * 1024;
+
 /// A custom Read trait for internal use
 pub trait Read<'de>: private::Sealed {
     /// Peek the next byte without consuming
@@ -48,8 +51,15 @@ pub trait Read<'de>: private::Sealed {
 
     /// Consuming `n` number of bytes
     fn read_bytes(&mut self, n: usize) -> Result<Vec<u8>, io::Error> {
-        let mut buf = vec![0u8; n];
-        self.read_exact(&mut buf)?;
+        // `n` usually comes from the wire: let the buffer grow with the bytes that actually
+        // arrive instead of allocating the declared length up front
+        let mut buf = Vec::new();
+        while buf.len() < n {
+            let start = buf.len();
+            let end = n.min(start.saturating_add(READ_BYTES_CHUNK));
+            buf.resize(end, 0);
+            self.read_exact(&mut buf[start..])?;
+        }
         Ok(buf)
     }
 
